@@ -67,6 +67,15 @@ func hasComment(s skel) bool {
 	return false
 }
 
+func hasFlag(flags []string, f string) bool {
+	for _, x := range flags {
+		if x == f {
+			return true
+		}
+	}
+	return false
+}
+
 func hostileByte(s string) bool {
 	for i := 0; i < len(s); i++ {
 		c := s[i]
@@ -134,7 +143,21 @@ func check(c Case) evid.Outcome {
 	// relation 1: the author's markup (reference reading: scripting disabled)
 	si, sr := skeleton(outI, false), dropComments(skeleton(rb.String(), false))
 	if si.String() != sr.String() {
-		return evid.Viol("engine output does not have the structure the author wrote\ntemplate: %q\ninert output: %q\nreference:    %q\nskeleton:           %s\nreference skeleton: %s", text, outI, rb.String(), si, sr)
+		v := evid.Viol("engine output does not have the structure the author wrote\ntemplate: %q\ninert output: %q\nreference:    %q\nskeleton:           %s\nreference skeleton: %s", text, outI, rb.String(), si, sr)
+		// known deviations of the author relation, each tied to the construct the generator itself flagged
+		// (data independence and the no-comment rule above are enforced inside these zones as everywhere else)
+		for _, z := range []string{"K-cmt", "K-rawnest", "K-bogus", "boundary-lt", "K-tagname"} {
+			if hasFlag(c.Prog.Flags, "zone:"+z) {
+				v.Finding = z
+				if z == "boundary-lt" {
+					// not a finding: the author relation is not defined for this class (section 4, C01)
+					o.Labels = append(o.Labels, "boundary-lt-author-relation-undefined")
+					return o
+				}
+				break
+			}
+		}
+		return v
 	}
 	o.Labels = append(o.Labels, "accepted")
 	return o
@@ -144,6 +167,16 @@ func gen(t *rapid.T) Case {
 	p := tmpl.Generate(t, tmpl.DefaultOptions)
 	return Case{Prog: *p, Data: tmpl.Bind(t, p)}
 }
+
+// genZones: the same grammar plus the constructs of the known-deviation zones.
+func genZones(t *rapid.T) Case {
+	o := tmpl.DefaultOptions
+	o.Zones = true
+	p := tmpl.Generate(t, o)
+	return Case{Prog: *p, Data: tmpl.Bind(t, p)}
+}
+
+func TestPropZones(t *testing.T) { evid.RunProp(t, "zones", 0.3, genZones, check) }
 
 func TestPropStructure(t *testing.T) { evid.RunProp(t, "structure", 1, gen, check) }
 
@@ -209,5 +242,5 @@ func checkSet(c SetCase) evid.Outcome {
 func TestPropSets(t *testing.T) { evid.RunProp(t, "sets", 0.25, genSet, checkSet) }
 
 func TestReplay(t *testing.T) {
-	evid.Replay(t, evid.R("structure", check), evid.R("sets", checkSet))
+	evid.Replay(t, evid.R("structure", check), evid.R("zones", check), evid.R("sets", checkSet))
 }
